@@ -416,11 +416,14 @@ def _special_cmp(a, b, op):
     return {'<': bv > 0, '<=': bv > 0, '>': bv < 0, '>=': bv < 0, '==': False, '!=': True}[op]
 
 
-def rsqrt(x) -> R:
+def rsqrt(x, nonneg=False) -> R:
+    """sqrt; nonneg=True when the caller knows the argument is a sum of squares."""
     x = R.lift(x)
     if x.special:
         return NAN if x.special in ('nan', '-inf') else INF
     s = x.t.sign()
+    if nonneg:
+        return R(T.sqrt(x.t))
     if s in ('-',) or (s is None and not CTX.nonneg(x.t)):
         return NAN
     return R(T.sqrt(x.t))
